@@ -548,12 +548,50 @@ class Path:
         return ["%s:bb%d" % b for b in self.st.blocks]
 
 
+def static_callees(prog, eff, fname):
+    """internal (static) functions reachable from fname through direct calls, excluding those on a cycle made of
+    internal functions only: implementation details that may be inlined so that extract-/inline-helper refactorings
+    do not change a verdict.  Only these functions are ever inlined, so a helper that calls an exported function back
+    (an arm of a recursive routine moved into a helper) is safe to inline: the exported call inside it stays opaque."""
+    def internal(c):
+        g = prog.funcs.get(c)
+        return g is not None and g.internal and c != fname
+
+    def on_internal_cycle(c):
+        seen = set()
+        stack = [c]
+        while stack:
+            x = stack.pop()
+            for d in eff.summ[x]["callees"]:
+                if not internal(d):
+                    continue
+                if d == c:
+                    return True
+                if d not in seen:
+                    seen.add(d)
+                    stack.append(d)
+        return False
+    out = set()
+    stack = [fname]
+    while stack:
+        x = stack.pop()
+        for c in eff.summ[x]["callees"]:
+            if internal(c) and c not in out:
+                if on_internal_cycle(c):
+                    continue   # recursive helper: not inlined
+                out.add(c)
+                stack.append(c)
+    return out
+
+
 class Executor:
-    def __init__(self, prog, eff, inline=(), max_paths=MAX_PATHS, loop_bound=1, arith_events=False, snapshot_calls=()):
+    def __init__(self, prog, eff, inline=(), max_paths=MAX_PATHS, loop_bound=1, arith_events=False, snapshot_calls=(), auto_static=True):
         self.prog, self.eff = prog, eff
         self.arith_events = arith_events
         self.snapshot_calls = set(snapshot_calls)
         self.inline = set(inline)
+        self.inline_given = set(inline)
+        self.auto_static = auto_static
         self.max_paths = max_paths
         self.loop_bound = loop_bound
         self.npaths = 0
@@ -596,8 +634,12 @@ class Executor:
         return ("other", repr(v))
 
     def run(self, fname, arg_terms=None, init=None):
-        """list of Path objects for every feasible acyclic path of fname"""
+        """list of Path objects for every feasible acyclic path of fname.  Unit-internal (static) helpers that are not on
+        a cycle of internal functions are implementation details of the function and are always inlined, so that
+        extracting code into a helper - or folding a helper back - never changes what a rule sees."""
         f = self.prog.fn(fname)
+        if self.auto_static:
+            self.inline = set(self.inline_given) | static_callees(self.prog, self.eff, fname)
         if arg_terms is None:
             arg_terms = [("arg", i) for i in range(len(f.params))]
         st = State()
